@@ -215,3 +215,52 @@ M('c03-sink-reported-as-resource', 'C03', 'R9', 'falcon/app.py',
 
                     break
 """)
+
+# ---- wave 6
+M('c03-before-filters-own-namespace', 'C03', 'R7', 'falcon/hooks.py',
+  """                if _DECORABLE_METHOD_NAME.match(responder_name):
+                    responder = cast('Responder', responder)
+                    do_before_all = _wrap_with_before(responder, action, args, kwargs)
+""", """                if responder_name in vars(responder_or_resource) and _DECORABLE_METHOD_NAME.match(responder_name):
+                    responder = cast('Responder', responder)
+                    do_before_all = _wrap_with_before(responder, action, args, kwargs)
+""")
+M('c03-add-middleware-dedupes-by-equality', 'C03', 'R6', 'falcon/app.py',
+  """            self._unprepared_middleware += middleware  # type: ignore[arg-type]
+""", """            middleware = [mc for mc in middleware if mc not in self._unprepared_middleware]
+            self._unprepared_middleware += middleware  # type: ignore[arg-type]
+""")
+M('c03-add-middleware-appends-filtered', 'C03', 'R6', 'falcon/app.py',
+  """            self._unprepared_middleware += middleware  # type: ignore[arg-type]
+""", """            self._unprepared_middleware += [mc for mc in middleware if mc is not None and mc not in self._unprepared_middleware]
+""")
+M('c03-asgi-async-spelling-decided-per-component', 'C03', 'R3', 'falcon/app_helpers.py',
+  """            process_response: Union[Optional[APResponse], Optional[PResponse]] = (
+                util.get_bound_method(component, 'process_response_async')
+                or _wrap_non_coroutine_unsafe(
+                    util.get_bound_method(component, 'process_response')
+                )
+            )
+""", """            process_response: Union[Optional[APResponse], Optional[PResponse]] = (
+                util.get_bound_method(component, 'process_response_async')
+                if hasattr(component, 'process_request_async')
+                else _wrap_non_coroutine_unsafe(
+                    util.get_bound_method(component, 'process_response')
+                )
+            )
+""")
+M('c03-asgi-resource-method-never-falls-back', 'C03', 'R3', 'falcon/app_helpers.py',
+  """            process_resource: Union[Optional[APResource], Optional[PResource]] = (
+                util.get_bound_method(component, 'process_resource_async')
+                or _wrap_non_coroutine_unsafe(
+                    util.get_bound_method(component, 'process_resource')
+                )
+            )
+""", """            process_resource: Union[Optional[APResource], Optional[PResource]] = (
+                util.get_bound_method(component, 'process_resource_async')
+            )
+""")
+M('c03-wsgi-response-method-from-async-name', 'C03', 'R3', 'falcon/app_helpers.py',
+  """            process_response = util.get_bound_method(component, 'process_response')
+""", """            process_response = util.get_bound_method(component, 'process_response_async') or util.get_bound_method(component, 'process_response')
+""")
